@@ -734,7 +734,7 @@ Proof.
 Qed.
 
 Definition msg_ok (ports : list port) (m : rmsg) : Prop :=
-  match m with RBind s => SW ports s | _ => True end.
+  match m with RBind s => SW ports s /\ Forall (fun v => v = 0) (values s) | _ => True end.
 
 Lemma rt_deliver_ok : forall ports r m, RI ports r -> msg_ok ports m ->
   exists r', rt_deliver r m = Some r' /\ RI ports r'.
@@ -744,9 +744,9 @@ Proof.
   - eexists. split; [reflexivity |]. split; assumption.
   - destruct (pq_pop_ok _ Wq) as [q' [Ep Wq']]. rewrite Ep.
     destruct (rstorage r) as [old |].
-    + destruct (cloneValues_ok ports s old Hm Ws) as [c [Ec [Wc _]]]. rewrite Ec.
+    + destruct Hm as [Hm Hz]. destruct (cloneValues_ok ports s old Hm Ws) as [c [Ec [Wc _]]]. rewrite Ec.
       eexists. split; [reflexivity |]. split; assumption.
-    + eexists. split; [reflexivity |]. split; assumption.
+    + eexists. split; [reflexivity |]. split; [assumption | apply Hm].
 Qed.
 
 (* ---- both halves and the channels -------------------------------------------------- *)
@@ -776,7 +776,8 @@ Qed.
 Lemma binds_ok : forall ports n out, NI ports n -> binds_are (nstorage n) out -> Forall (msg_ok ports) out.
 Proof.
   intros ports n out I B. unfold binds_are in B. eapply Forall_impl; [| exact B].
-  intros m H. destruct m; cbn; auto. eapply NI_SW; eassumption.
+  intros m H. destruct m; cbn; auto. split; [eapply NI_SW; eassumption |].
+  pose proof (ni_zero _ _ I) as Z. rewrite H in Z. exact Z.
 Qed.
 
 Lemma J_step : forall ports w e, J ports w -> pre_ok w e -> evok ports e ->
@@ -791,12 +792,12 @@ Proof.
     apply Forall_app. split; [assumption |].
     destruct (akind (wn w) a c =? -1).
     + destruct OS as [-> _]. constructor.
-    + destruct OS as [s' [-> Es]]. constructor; [cbn; eapply NI_SW; eassumption | constructor].
+    + destruct OS as [s' [-> Es]]. constructor; [cbn; split; [eapply NI_SW; eassumption | pose proof (ni_zero _ _ I') as Z; rewrite Es in Z; exact Z] | constructor].
   - cbn [nrt_clear nrt_result]. eexists. eexists. split; [reflexivity |].
     constructor; cbn [wn wr chN chR]; try assumption; [apply NI_clear |].
     apply Forall_app. split; [assumption |]. apply Forall_app. split.
     + clear. induction (learnQ (wn w)); constructor; [exact I | assumption].
-    + constructor; [cbn; eapply NI_SW; [apply (NI_clear ports) | reflexivity] | constructor].
+    + constructor; [cbn; split; [eapply NI_SW; [apply (NI_clear ports) | reflexivity] | constructor] | constructor].
   - destruct Ev as [Hid Hv].
     destruct (rt_handleCC_ok ports (wr w) (cc_id par chan nrpn) val Jr Hv) as [r' [m [used [E R']]]].
     rewrite E. eexists. eexists. split; [reflexivity |].
@@ -809,7 +810,7 @@ Proof.
       destruct (NI_use ports (wn w) id a c q Jn LQ Hid Fresh) as [n' [s' [E [I' [Es _]]]]].
       rewrite E. cbn [nrt_result].
       eexists. eexists. split; [reflexivity |]. constructor; cbn [wn wr chN chR]; try assumption.
-      apply Forall_app. split; [assumption |]. constructor; [cbn; eapply NI_SW; eassumption | constructor].
+      apply Forall_app. split; [assumption |]. constructor; [cbn; split; [eapply NI_SW; eassumption | pose proof (ni_zero _ _ I') as Z; rewrite Es in Z; exact Z] | constructor].
   - destruct (chR w) as [| m rest] eqn:ER.
     + eexists. eexists. split; [reflexivity |]. constructor; try assumption. rewrite ER. constructor.
     + inversion Jcr as [| ? ? Hm Hrest]; subst.
